@@ -105,7 +105,8 @@ def order_space_small():
     for side in ("BACK", "LAY"):
         for lad in ("CLASSIC", "FINEST", "LINE_RANGE"):
             for status in STATUSES:
-                for m, rem in ((0, 300), (200, 300), (500, 0), (236, 14)):
+                # (matched sizes whose binary value sits just below the decimal one: 0.29, 4.35, 8.20, 19.99)
+                for m, rem in ((0, 300), (200, 300), (500, 0), (236, 14), (435, 565), (29, 0), (1999, 1), (820, 180)):
                     price = 15050 if lad == "LINE_RANGE" else 350
                     out.append({"side": side, "type": "LIMIT", "lad": lad, "status": status, "size": m + rem, "m": m, "can": 0, "price": price, "avg": 320 if m else 0})
         for typ in ("LIMIT_ON_CLOSE", "MARKET_ON_CLOSE"):
@@ -119,10 +120,10 @@ def random_order(rnd):
     typ = rnd.choice(["LIMIT"] * 6 + ["LIMIT_ON_CLOSE", "MARKET_ON_CLOSE"])
     lad = rnd.choice(["CLASSIC"] * 4 + ["FINEST", "LINE_RANGE"]) if typ == "LIMIT" else "CLASSIC"
     status = rnd.choice(STATUSES + ["EXECUTABLE", "COMPLETE", "EXECUTABLE"])
-    size = rnd.choice([200, 500, 236, 1000, 50, 2500, 1])
+    size = rnd.choice([200, 500, 236, 1000, 50, 2500, 1, 435, 29, 1999, 820, 460, 230])
     if typ != "LIMIT":
         return {"side": side, "type": typ, "lad": lad, "status": status, "size": size, "m": 0, "can": 0, "price": rnd.choice([150, 300, 1000]), "avg": 0}
-    m = rnd.choice([0, 0, size, size // 2, size // 3])
+    m = rnd.choice([0, 0, size, size, size // 2, size // 3])
     can = rnd.choice([0, 0, 0, (size - m) // 2]) if status != "PENDING" else 0
     price = rnd.choice([101, 150, 236, 350, 1000, 5000]) if lad != "LINE_RANGE" else rnd.choice([15050, 5050])
     avg = (price + rnd.choice([0, 0, 10, -10, 33])) if m else 0
